@@ -288,7 +288,7 @@ impl Scenario for TrackerHistories {
         "tracker_histories"
     }
     fn runs(&self, tier: Tier) -> u64 {
-        tier.pick(12_000, 200_000)
+        tier.pick(8000, 200_000)
     }
     fn generate(&self, g: &mut Gen, _t: Tier, _i: u64) -> Value {
         let n = match g.range(0, 9) {
@@ -373,7 +373,7 @@ impl Scenario for ProgressSnapshots {
         "progress_snapshots"
     }
     fn runs(&self, tier: Tier) -> u64 {
-        tier.pick(4800, 60_000)
+        tier.pick(2400, 60_000)
     }
     fn generate(&self, g: &mut Gen, _t: Tier, _i: u64) -> Value {
         let nc = g.usize(2, 8);
